@@ -12,6 +12,37 @@ TRUST = ("Trusted: Coq 8.16.1 kernel (full .vo build), extraction with ExtrOcaml
          "working tree on every run. ")
 
 CHECKS = {
+    "C03": dict(
+        text="Proof: the executable pipeline model equals, bin for bin and for every outgoing slot and band, the L0 "
+             "recursion (one equation per order) fed with visible pairs, centre-distance travel-time bins and the transfer "
+             "factor form factor x attenuation x pi*BRDF of the RECEIVING wall at the nearest incoming sample "
+             "(C03_refines, C03_transfer_factor); order K = order K-1 + non-negative term; non-negativity from "
+             "non-negative data; diffuse tables make the histograms independent of the direction sampling, across "
+             "scenes with different numbers of directions. Correspondence on shoeboxes and closed triangle polyhedra; "
+             "the search compares /repo with a second, independently written Python solver.",
+        note=TRUST + "'finite' is a float notion (correspondence only). The reference solver takes the baked form "
+             "factors/visibility as scene data (C05/C07).",
+        technique="Coq refinement proof (list model = recursion) + extracted-model correspondence", ref="5/C03"),
+    "C07": dict(
+        text="Proof (partial): the early-exit scans equal forallb over the surfaces, the patch matrix is the strict upper "
+             "triangle of the line-of-sight conjunction, the relation and basic_visibility itself are symmetric in the two "
+             "points (field laws, eps >= 0), and -- conditional on pip_correct along the line -- hidden <=> the open "
+             "segment meets the surface, with the endpoint and coplanar branches characterised. pip_correct (the "
+             "winding test with tolerances) is NOT proved and is refuted as a universal statement by a Qc witness "
+             "(ray through a pointed vertex: known finding C07/ray_through_vertex). Correspondence against an exact "
+             "rational segment/polygon oracle.",
+        note=TRUST + "Winding-number correctness is validated by differential testing only.",
+        technique="Coq proof over ordered field + extracted-model correspondence + exact-rational oracle", ref="5/C07"),
+    "C19": dict(
+        text="Proof: the Kang list model's order-(k+1) histogram is the stated sum over the patches of all other walls "
+             "(get_form_factor's offset arithmetic addresses the right column: induction over other_wall_ids), delayed "
+             "with zero fill (nothing before the delay, nothing wraps, no bins beyond N; truncation commutes with the "
+             "recursion), scaled by form factor, scattering, (1-alpha) of the RECEIVING wall and exp(-m d); response "
+             "monotone in K for non-negative data; direct sound adds exactly its value in one bin; full invariance under "
+             "translation and cyclic axis permutation of axis-aligned scenes (the scalar formulas are modelled).",
+        note=TRUST + "E_matrix is invariant under the axis permutation only up to the patch relabelling the tiling "
+             "induces (patch order is data; tiling is C08). sqrt/atan/exp are abstract operations.",
+        technique="Coq proof (induction over wall lists/orders) + extracted-model correspondence", ref="5/C19"),
     "C04": dict(
         text="Proof (partial): share <= 1/2 (strict under a stated non-degeneracy), exact zero for hidden/back-facing "
              "patches, invariance of the angle sum under cyclic shift and reversal of the vertex list, invariance under "
